@@ -117,6 +117,9 @@ def cases(tier, seed):
             off = rnd.choice([0, 0, 0, 1, 2, n]) if n else 0
             ops.append("vi.decbuf %s %s %d %s" % (ty, s, min(off, n), rnd.choice(["zero", "full"])))
             ops.append("vi.decsrc %s %s" % (ty, s))
+            if n and rnd.random() < 0.5:
+                # a source that is busy / interrupted / failing once, in front of one of the octets
+                ops.append("vi.decsrcb %s %s %d %s" % (ty, s, rnd.randint(0, n), rnd.choice(["eagain", "eagain", "eintr", "eio"])))
         cs.append(Case("dec-%d" % i, ops, ("decode",)))
     return cs
 
